@@ -22,7 +22,8 @@ inline SizeType SafeNextCapacity(SizeType oldCapa, uintmax_t newSize, bool exact
   const uintmax_t newCapa =
       std::min(std::max(static_cast<uintmax_t>((3U * static_cast<uintmax_t>(oldCapa) + 1U) / 2U), newSize),
                static_cast<uintmax_t>(std::numeric_limits<SizeType>::max()));
-  if (AMC_UNLIKELY(newCapa < newSize)) {
+  // The largest uintmax_t is what a sum of sizes saturates to (see SumSizes): no size_type can hold that many elements
+  if (AMC_UNLIKELY(newCapa < newSize || newSize == std::numeric_limits<uintmax_t>::max())) {
     throw std::overflow_error("Attempt to use more elements that size_type can support. Use a larger size_type");
   }
   return static_cast<SizeType>(newCapa);
